@@ -314,7 +314,13 @@ def execute(scenario):
             # frictionless: weights after execution equal the action, residual is cash
             if scenario.get("frictionless") and sp.get("as_weights", True) and reb["post"] is not None and sp.get("fractional", True):
                 okw = True
+                dust = set()
                 for sym, w in want.items():
+                    bid_, ask_ = ex[0]["books"].get(sym, (None, None))
+                    px_ = ask_ if w > 0 else bid_
+                    if px_ and reb["pre"] is not None and abs(w * reb["pre"]["nlv"] / (px_ * float(epicheck_params(h, sym)[0]))) < 1e-5:
+                        dust.add(sym)
+                        continue    # dust: positions below the broker's flattening epsilon (1e-7 contracts) are dropped
                     if abs(reb["post"]["w"].get(sym, 0.0) - w) > 1e-9 * max(1.0, abs(w)):
                         okw = False
                         violate("executed_weights", "step {}: after a frictionless execution the weight of {} is {} but the action says {}".format(
@@ -330,7 +336,7 @@ def execute(scenario):
                 cash_w = reb["post"]["w"].get("USD", None)
                 if cash_w is not None:
                     # fully-paid contracts consume cash; margined ones only post margin (reported separately)
-                    spot_w = sum(w for sym, w in want.items() if float(epicheck_params(h, sym)[1]) == 1.0)
+                    spot_w = sum(w for sym, w in want.items() if float(epicheck_params(h, sym)[1]) == 1.0 and sym not in dust)
                     marg = sum(reb["post"]["margins"].get(sym, 0.0) for sym in want) / reb["post"]["nlv"]
                     if abs(cash_w - (1.0 - spot_w - marg)) > 1e-9 * 10:
                         violate("executed_weights", "step {}: cash weight {} but 1 - fully-paid weights {} - posted margins {} = {}".format(
